@@ -163,7 +163,11 @@ func c19DtOne(c *core.Ctx, env *drv.Env, k c19DtPayload, verbose bool) (outcome 
 	}
 	outcome = "ok"
 	c19ExtExec(env, cx.sql, func(i int, r c19ExtResult) {
-		o := c19ExtJudge(c, "datetime-text", kind+":"+cx.id, r, fmt.Sprintf("statement %d of %q on %q", i+1, cx.sql, k.Texts), k)
+		on := fmt.Sprintf("%q", k.Texts)
+		if len(on) > 400 {
+			on = on[:400] + fmt.Sprintf("... (%d texts, see the replay file)", len(k.Texts))
+		}
+		o := c19ExtJudge(c, "datetime-text", kind+":"+cx.id, r, fmt.Sprintf("statement %d of %q on %s", i+1, cx.sql, on), k)
 		if o != "ok" {
 			outcome = o
 		}
